@@ -10,7 +10,7 @@ import threading
 from . import lang, seams, steps
 from .lang import Err, HostErr, SynErr, Unspec
 from .sut import HarnessError
-from .world import SimIn, SimOut, World
+from .world import SimDeadlock, SimIn, SimOut, World
 
 MOD_HOME = "/sim/home/.ckl/modules"
 
@@ -77,6 +77,9 @@ class Sim:
             except steps.StepBudgetExceeded as e:
                 out = {"kind": "budget", "val": "", "msg": str(e),
                        "cls": "StepBudgetExceeded"}
+            except SimDeadlock as e:
+                out = {"kind": "budget", "val": "", "msg": str(e),
+                       "cls": "SimDeadlock"}
             except RecursionError as e:
                 out = {"kind": "host", "val": "", "msg": "recursion",
                        "cls": "RecursionError"}
